@@ -1134,7 +1134,11 @@ def lines_e2e_cde(cases, workdir, stream, binary):
             payload = json.dumps({"doc": tag(c["doc"]), "opts": c["opts"], "imp": tag(strip_import(imp)), "rooms": c["rooms"]}, ensure_ascii=False)
             out.append(line("spec", ["C05", "C11", "C01", "C06"], "CE", payload, "file=ok write=ok hard=true room=true", case=i, stream=stream,
                             nontrivial=bool(imp.get("registrations"))))
-            if c.get("prf"):
+            if c.get("prf") and c["rooms"] is None:
+                # asked for without a room list: there are no possible rooms to name, the field is not written
+                has = [k for k, v in imp.get("courses", {}).items() if "possible_rooms" in (v.get("fields") or {})]
+                out.append(line("direct", ["C18"], ok=not has, what=f"no room list given, but courses {has[:5]} carry a possible-rooms field", case=i, stream=stream, nontrivial=False))
+            if c.get("prf") and c["rooms"] is not None:
                 payload = json.dumps({"doc": tag(c["doc"]), "opts": c["opts"], "imp": tag(strip_import(imp)), "rooms": c["rooms"], "field": "possible_rooms"}, ensure_ascii=False)
                 out.append(line("spec", ["C18"], "CP", payload, "sound=true nonempty=true", case=i, stream=stream, nontrivial=bool(imp.get("registrations"))))
             # overall quality in the summary (C08)
